@@ -203,3 +203,12 @@ MUTANTS = [
     {"id": "C14-benign-explicit-final-mask", "prop": "C14", "benign": True,
      "edits": [("src/encoder.rs", "\n" + I12 + "dst[0] = BASE64_ENCODE[(s0 >> 2) as usize];", "\n" + I12 + "dst[0] = BASE64_ENCODE[((s0 >> 2) & 0x3f) as usize];")]},
 ]
+
+MUTANTS += [
+    {"id": "C14-inv-fill-guard-plus-2", "prop": "C14", "expect": "TOTAL",
+     "edits": [("src/decoder.rs", "while self.buffer_size + 3 <= self.buffer.len() {", "while self.buffer_size + 2 <= self.buffer.len() {")]},
+    {"id": "C14-inv-offset-not-reset", "prop": "C14", "expect": "INV-DECODER",
+     "edits": [("src/decoder.rs", "            self.buffer_offset = 0;\n            self.buffer_size = 0;", "            self.buffer_size = 0;")]},
+    {"id": "C14-inv-carry-reset-late", "prop": "C14", "expect": "",
+     "edits": [("src/encoder.rs", "            if self.size == 3 {\n                let [s0, s1, s2] = self.buffer;", "            if self.size == 4 {\n                let [s0, s1, s2] = self.buffer;")]},
+]
